@@ -202,4 +202,9 @@ def get_jaqal_gates(jaqal_module, import_path=None):
         import_path = os.getcwd()
 
     jg = jaqal_import(str(jaqal_module), "jaqal_gates", import_path=Path(import_path))
-    return jg.ALL_GATES
+    try:
+        return jg.ALL_GATES
+    except AttributeError:
+        raise ImportError(
+            f"Module {jaqal_module} defines no gates (no ALL_GATES in its jaqal_gates)"
+        ) from None
